@@ -25,3 +25,6 @@ CHECKS['C09'] = (_SYMX + '; causal-validity assertions on transmissions vs node 
 CHECKS['C10'] = (_SYMX + '; two runs per path with a replaying random source, step-function equality and status-at-symbolic-query-time proved by z3',
                  'on every path both return modes consume the same draws and describe the same epidemic: summary = arrays as step functions, accessors = summary, histories well-formed, node_status/get_statuses correct for an arbitrary symbolic query time, subset summaries correct',
                  'floats as reals; graphs <= 3 (4) nodes; event bounds; discrete-time simulators under a deterministic rule', 'DESIGN.md 6/C10')
+CHECKS['C13'] = (_SYMX + '; plain SIS reference semantics proved per path',
+                 'for every duration / delay-list rule (symbolic values, all interleavings of attempts, recoveries and reinfections within the bound) the history equals the plain reference: attempts infect iff the target is susceptible at that instant, recoveries follow durations, nothing else, nothing at/after tmax',
+                 'floats as reals; graphs K2, P3 (K3, P4); <= 3 (4) episodes; delay lists ascending and before recovery; distinct event times', 'DESIGN.md 6/C13')
